@@ -380,6 +380,8 @@ def peephole_tie(ctx):
                "Open Scope string_scope.\n"
                "Definition show_items (r : res (list item)) : list string := "
                "match r with Ok l => map show_item l | Err Raised => [\"PANIC\"] | Err _ => [\"E\"] end.\n")
+    # the opcode sets the passes consult are compared with the lists the models (and their proofs) use
+    set_exprs = ["ret01", "comm_ops"] + (["terminal_ops"] if has_jump else [])
     exprs, meta = [], []
     for i, (_nm, a) in enumerate(asms):
         defs = c15_asm.coq_items(a)
@@ -389,8 +391,16 @@ def peephole_tie(ctx):
             exprs.append(tmpl.format(defs))
             meta.append((i, fn))
     nsh = 3 if ctx.tier != "thorough" else 8
-    outs = coqrun.eval_cases(imports, exprs, "c15asm", shard=(len(exprs) + nsh - 1) // nsh,
+    outs = coqrun.eval_cases(imports, exprs + set_exprs, "c15asm", shard=(len(exprs) + len(set_exprs) + nsh - 1) // nsh,
                              timeout=220 if ctx.tier != "thorough" else 1500)
+    model_sets = {nm: set(STRS.findall(o)) for nm, o in zip(set_exprs, outs[len(exprs):])}
+    outs = outs[:len(exprs)]
+    from vyper.evm.assembler import optimizer as AO
+    from vyper.ir.optimizer import COMMUTATIVE_OPS
+    live_sets = {"ret01": set(AO._RETURNS_ZERO_OR_ONE), "terminal_ops": set(AO._TERMINAL_OPS),
+                 "comm_ops": {x.upper() for x in COMMUTATIVE_OPS} - {"NE"}}
+    set_diff = {nm: sorted(live_sets[nm] ^ model_sets[nm]) for nm in model_sets if live_sets[nm] != model_sets[nm]}
+    ctx.corr["asm_opcode_sets_checked"] = sorted(model_sets)
     changed, bad = 0, None
     for (i, fn), o in zip(meta, outs):
         a = asms[i][1]
@@ -408,6 +418,14 @@ def peephole_tie(ctx):
     ctx.corr["peephole_corpus_items"] = sum(len(a) for _n, a in corpus)
     # observation / Search: stack programs with every window, with and without optimize_assembly, on the EVM
     from vlib.evm import Chain
+    if set_diff:
+        probe = c15_asm.opcode_set_probe(Chain("cancun"), set_diff.get("ret01", []))
+        if probe is not None:
+            failing(ctx, "an opcode that does not return 0/1 is treated as such: X ISZERO ISZERO collapses to X", probe,
+                    key="asmopt:ret01:" + probe["opcode"])
+        else:
+            ctx.violation("correspondence-broken", "opcode sets of evm/assembler/optimizer.py differ from the model's",
+                          {"symmetric_difference": set_diff})
     npat, diff = c15_asm.pattern_evm_differential(Chain("cancun"), ctx.rng("asmevm"))
     ctx.corr["peephole_evm_programs"] = npat
     if diff is not None:
